@@ -23,6 +23,8 @@ THEOREMS = [
     "C16.body_key_is_name",
     "C16.bulk_closed",
     "C16.bulk_key_not_closed",
+    "C16.bulk_full_false",
+    "C16.bulk_key_collision",
     "C16.bulk_ops_exact",
     "C16.bulk_params_declared",
     "C16.bulk_roundtrip",
@@ -561,10 +563,15 @@ def check_case(chk, case, res, model_bulk, model_emit, stats):
                 chk.failure({"region": "bulk", "kind": "roundtrip-request-bodies-differ"},
                             "requestBodies read back from the generated routes differ from emit.openapi at %s: %s vs %s" % (bad_keys[:2], json.dumps(got_rb.get(bad_keys[0]))[:200], json.dumps(want_rb.get(bad_keys[0]))[:200]), replay)
             for m, info in zip(models, res["models"]):
-                key = title_key(info["table"])
+                # the schema the model's routes point to (when present) must be the schema of that model's table
                 want = {k: v for k, v in dec(info["schema"]).items() if not k.startswith("$")}
-                if doc["components"]["schemas"].get(key) != want and sum(1 for x in res["models"] if title_key(x["table"]) == key) == 1:
-                    chk.failure({"region": "bulk", "kind": "schema-differs"}, "components.schemas[%s] is not the schema of table %s" % (key, info["table"]), replay)
+                if m["cls"] in doc["components"]["schemas"] and doc["components"]["schemas"][m["cls"]] != want:
+                    others = [m2["cls"] for m2, i2 in zip(models, res["models"]) if m2 is not m and title_key(i2["table"]) == m["cls"]
+                              and doc["components"]["schemas"][m["cls"]] == {k: v for k, v in dec(i2["schema"]).items() if not k.startswith("$")}]
+                    cause = "key-of-another-table" if others else "other"
+                    chk.failure({"region": "bulk", "kind": "schema-differs", "cause": cause},
+                                "components.schemas[%s], which the routes of class %s reference, is not the schema of its table %s%s" % (
+                                    m["cls"], m["cls"], info["table"], " but that of class %s" % others[0] if others else ""), replay)
         if model_bulk is not None:
             if "doc" not in model_bulk or dec(model_bulk["doc"]) != doc:
                 stats["dis_bulk"] += 1
@@ -666,6 +673,11 @@ def run(chk: core.Check) -> int:
         "sqlalchemy parse → json_schema (the model schema) is input data here (C05/C06); the theorems assume schemas without `$ref`, the oracle checks it on every real document",
         "`resolves` in the theorems is an RFC 6901 pointer walk without ~0/~1 unescaping and without list indices (names are identifiers); the oracle on real documents uses the full walk",
     ]
+    chk.assumptions += [
+        "theorem hypotheses = the statement's domain: entity names contain no '/' (and for the explicit bulk document no '`', non-empty), routes no '{' / ':', ids no '}' / '/', crud ⊆ 'CRD', the paths route and route/{id} of different models pairwise distinct, model schemas without $ref",
+        "openapi_bulk closure additionally assumes title(tablename.replace('_tbl','',1)) == class name for every model (false in general: known finding C16-bulk-key-title)",
+        "openapi_bulk operations/round trip assume one upsert batch per routes file (otherwise known finding C16-upsert-appended-batch)",
+    ]
     rng = chk.rng
     have_driver = core.DRIVER.exists()
     stats = {"dis_emit": 0, "dis_bulk": 0, "dis_oracle": 0}
@@ -685,6 +697,9 @@ def run(chk: core.Check) -> int:
             {"cls": "Config", "table": "config_tbl", "tkind": "snake_tbl", "doc": "A model.", "cols": cols, "pk_kind": "explicit-first", "crud": "CRD", "route": "/api/config", "prefix": "/api"},
             {"cls": "BodyPart", "table": "bodypart", "tkind": "lower", "doc": "A model.", "cols": cols, "pk_kind": "explicit-first", "crud": "CD", "route": "/api/body_part", "prefix": "/api"}]},
     ]
+    pinned.append({"k": -5, "app": "rest_api", "layout": "separate", "other_app": False, "models": [
+        {"cls": "Foo", "table": "foos", "tkind": "other", "doc": "Plural table.", "cols": cols, "pk_kind": "explicit-first", "crud": "CR", "route": "/api/foos", "prefix": "/api"},
+        {"cls": "foo", "table": "foo", "tkind": "same", "doc": "Lower-case class.", "cols": [["slug", "String", "the slug", True, None]], "pk_kind": "explicit-first", "crud": "CD", "route": "/foo", "prefix": ""}]})
     cases = pinned + cases
     impl = core.pmap(impl_case, cases, chunksize=8)
     reqs = []
@@ -820,7 +835,11 @@ def run(chk: core.Check) -> int:
 
 
 def replay(path: str) -> int:
-    d = json.loads(Path(path).read_text())["replay"]
+    blob = json.loads(Path(path).read_text())
+    if "replay" not in blob or not blob["replay"]:
+        print("replay: %s holds no failing input (kind=%s): %s" % (path, blob.get("kind"), [b["name"] for b in blob.get("no_longer_checks", [])][:5]))
+        return 2
+    d = blob["replay"]
     core.repo_on_path()
     case = d["case"]
     res = impl_case(case)
